@@ -507,27 +507,28 @@ HBPcloseAID(accrec_t *access_rec)
        If no more references to that, free the record */
 
     if (--(info->attached) == 0) {
-        /* Flush the data if it's been modified */
+        /* Flush the data if it's been modified; whether or not that works,
+           the buffer and the dependent access record are let go of */
         if (info->modified) {
             /* the buffer holds the whole element: it goes back to its start
                (filling the buffer left the element positioned at its end) */
             if (Hseek(info->buf_aid, 0, DF_START) == FAIL)
-                HGOTO_ERROR(DFE_SEEKERROR, FAIL);
-            if (Hwrite(info->buf_aid, info->length, info->buf) == FAIL)
-                HGOTO_ERROR(DFE_WRITEERROR, FAIL);
+                HERROR(DFE_SEEKERROR), ret_value = FAIL;
+            else if (Hwrite(info->buf_aid, info->length, info->buf) == FAIL)
+                HERROR(DFE_WRITEERROR), ret_value = FAIL;
         } /* end if */
 
         /* Free the memory buffer */
         free(info->buf);
 
         /* Close the dependent access record */
-        Hendaccess(info->buf_aid);
+        if (Hendaccess(info->buf_aid) == FAIL)
+            HERROR(DFE_CANTENDACCESS), ret_value = FAIL;
 
         free(info);
         access_rec->special_info = NULL;
     }
 
-done:
     return ret_value;
 } /* HBPcloseAID */
 
